@@ -1,6 +1,7 @@
 import Verif.Impl.LuaApi
 import Verif.Impl.Loader
 import Verif.Proofs.RunCycles
+import Verif.Impl.RunObs
 /-
   C12 — The Lua script API reads and writes the same machine state the program sees.
   The API model acts on the `Machine` the run loop of Impl/Run.lean executes (there is no second copy of the
@@ -203,6 +204,22 @@ theorem C12_cycles (tbl : Byte → Option H) (kc : CycleConsts) (model : CpuMode
   simp only [apiStep, runExt]
   rw [runLoop_cycles]
   simp
+
+/-- get_cycles from INSIDE a run (a trap function): every instruction — and so every trap call it makes — runs
+    on a bus that was handed the live counter, and after a non-halting instruction the next one is handed
+    the old value plus that instruction's cycles: the counter a trap function reads is the start value plus
+    the cycles of all instructions completed before the one that called it. -/
+theorem C12_cycles_live (tbl : Byte → Option H) (kc : CycleConsts) (model : CpuModel) (bus : Bus σ) (setCyc : Nat → σ → σ)
+    (n : Nat) (m : Machine σ) (out : StepOut) (regs' : Regs) (mem' : σ)
+    (h : (Impl.step tbl kc model m.regs).run bus (setCyc m.cycles m.mem) = (.ok (out, regs'), mem'))
+    (hh : out.halt = false) :
+    runLoopC tbl kc model bus setCyc (n + 1) m =
+      runLoopC tbl kc model bus setCyc n { regs := regs', cycles := m.cycles + out.cycles, mem := mem' } := by
+  simp [runLoopC, h, hh]
+
+/-- and the loop with the published counter is the loop C02 talks about -/
+theorem C12_same_loop (tbl : Byte → Option H) (kc : CycleConsts) (model : CpuModel) (bus : Bus σ) (n : Nat) (m : Machine σ) :
+    runLoopC tbl kc model bus (fun _ s => s) n m = runLoop tbl kc model bus n m := runLoopC_id tbl kc model bus n m
 
 /-- load_address and prog_len are the results of `Load`: header address and payload length -/
 theorem C12_globals (k : Spec.MemKind) (s : MemState) (lo hi b : Byte) (rest : List Byte) (la pl : Nat) (s' : MemState)
